@@ -25,6 +25,47 @@
 #include "cppParser.h"
 
 /**
+ * Returns true if a const object of the given type may be default-initialized,
+ * that is, unless the type is a class without a user-provided default
+ * constructor that leaves a data member or base class uninitialized.
+ */
+static bool
+is_const_default_constructible(CPPType *type) {
+  CPPStructType *stype = type->remove_cv()->as_struct_type();
+  if (stype == nullptr) {
+    return false;
+  }
+
+  CPPInstance *constructor = stype->get_default_constructor();
+  if (constructor != nullptr &&
+      (constructor->_storage_class & CPPInstance::SC_defaulted) == 0) {
+    // A user-provided default constructor.
+    return true;
+  }
+
+  CPPScope *scope = stype->get_scope();
+  CPPScope::Variables::const_iterator vi;
+  for (vi = scope->_variables.begin(); vi != scope->_variables.end(); ++vi) {
+    CPPInstance *instance = (*vi).second;
+
+    if ((instance->_storage_class & CPPInstance::SC_static) == 0 &&
+        instance->_initializer == nullptr &&
+        !is_const_default_constructible(instance->_type)) {
+      return false;
+    }
+  }
+
+  CPPStructType::Derivation::const_iterator di;
+  for (di = stype->_derivation.begin(); di != stype->_derivation.end(); ++di) {
+    if (!is_const_default_constructible((*di)._base)) {
+      return false;
+    }
+  }
+
+  return true;
+}
+
+/**
  *
  */
 void CPPStructType::Base::
@@ -588,6 +629,12 @@ is_default_constructible(CPPVisibility min_vis) const {
     }
 
     if (!instance->_type->is_default_constructible()) {
+      return false;
+    }
+
+    if (instance->_type->is_const() &&
+        !is_const_default_constructible(instance->_type)) {
+      // A const member that would be left uninitialized.
       return false;
     }
   }
